@@ -72,7 +72,7 @@ park can always do so (the model disables `park` exactly where the code would pa
 def NoAssert (c : Cfg) (tr : Nat → State) : Prop :=
   ∀ j w, w < c.n → (tr j).pc w = .parking → ∃ tag, (step c (tr j) (.park w tag)).isSome = true
 
-theorem reachable_step {c : Cfg} {s s' : State} {a : Act} (hr : Reachable c s) (hs : step c s a = some s') :
+theorem Reachable.step_closed {c : Cfg} {s s' : State} {a : Act} (hr : Reachable c s) (hs : step c s a = some s') :
     Reachable c s' := by
   obtain ⟨run, h⟩ := hr
   refine ⟨run ++ [a], ?_⟩
@@ -96,7 +96,7 @@ theorem FairRun.reach {c : Cfg} {tr : Nat → State} {act : Nat → Option Act} 
     have := R.next k
     cases ha : act k with
     | none => rw [ha] at this; simp only [StepOf] at this; rw [this]; exact ih
-    | some a => rw [ha] at this; exact reachable_step ih this
+    | some a => rw [ha] at this; exact Reachable.step_closed ih this
 
 /-- the suffix of a fair run is a fair run -/
 theorem FairRun.shift {c : Cfg} {tr : Nat → State} {act : Nat → Option Act} (R : FairRun c tr act) (K : Nat) :
@@ -511,6 +511,316 @@ theorem countW_pos (n : Nat) (f : Nat → Bool) (w : Nat) (hw : w < n) (h : f w 
     · subst e; simp [h]
     · have := ih (by omega); omega
 
+/-! ## general step facts: counters, running workers, pending requests -/
+
+theorem consumePending_same (s : State) (g : Goal) :
+    (consumePending s g) = { s with pendingMake := (consumePending s g).pendingMake } := by
+  unfold consumePending; split <;> rfl
+
+theorem step_counters_mono {c : Cfg} {s s' : State} {a : Act} (hs : step c s a = some s') :
+    s.started ≤ s'.started ∧ s.ended ≤ s'.ended := by
+  cases a
+  case park w tag =>
+    obtain ⟨_, _, _, hcase⟩ := step_park_cases hs
+    rcases hcase with ⟨_, rfl⟩ | ⟨_, s1, r, hl, he⟩
+    · exact ⟨Nat.le_refl _, Nat.le_refl _⟩
+    · have f := frame_onLastParked c _ _ _ _ hl
+      rw [he]; exact ⟨Nat.le_of_eq f.started.symm, Nat.le_of_eq f.ended.symm⟩
+  case wake w =>
+    simp only [step] at hs
+    split at hs
+    · injection hs with hs; subst hs
+      obtain ⟨p, _, he⟩ := afterUnpark_pc { s with parked := s.parked - 1 } w
+      rw [he]; exact ⟨Nat.le_refl _, Nat.le_refl _⟩
+    · cases hs
+  case makeRequest g x =>
+    simp only [step] at hs
+    have hc := consumePending_same s g
+    split at hs
+    · cases hs
+    · split at hs
+      · split at hs
+        · injection hs with hs; subst hs; rw [hc]; exact ⟨Nat.le_refl _, Nat.le_refl _⟩
+        · cases hs
+      · rw [notifyOne_same hs, hc]; cases g <;> exact ⟨Nat.le_refl _, Nat.le_refl _⟩
+  case bucketNotifyOne w b x =>
+    simp only [step] at hs
+    split at hs
+    · rw [notifyOne_same hs]; exact ⟨Nat.le_refl _, Nat.le_refl _⟩
+    · cases hs
+  case mutNotifyOne b x =>
+    simp only [step] at hs
+    split at hs
+    · rw [notifyOne_same hs]; exact ⟨Nat.le_refl _, Nat.le_refl _⟩
+    · cases hs
+  all_goals
+    simp only [step] at hs
+    repeat' (split at hs)
+    all_goals first
+      | (injection hs with hs; subst hs; exact ⟨Nat.le_refl _, Nat.le_refl _⟩)
+      | (injection hs with hs; subst hs; exact ⟨Nat.le_succ _, Nat.le_refl _⟩)
+      | (injection hs with hs; subst hs; exact ⟨Nat.le_refl _, Nat.le_succ _⟩)
+      | cases hs
+
+theorem step_execEnd_ended {c : Cfg} {s s' : State} {w : Nat} (hs : step c s (.execEnd w) = some s') :
+    s'.ended = s.ended + 1 := by
+  simp only [step] at hs
+  split at hs
+  · split at hs
+    · injection hs with hs; subst hs; rfl
+    · cases hs
+  · cases hs
+
+theorem isExec_keep {s t : State} {w' w : Nat} {p : PC} (hpc : t.pc = s.pc) (h : (s.pc w).isExec = true)
+    (hsrc : (s.pc w').isExec = false) : ((setPc t w' p).pc w).isExec = true := by
+  have e : w ≠ w' := by intro e; subst e; rw [h] at hsrc; cases hsrc
+  simp only [setPc, e, if_false, hpc]; exact h
+
+/-- a worker that runs a packet keeps running it until its own `execEnd` (or a respawn of the whole group) -/
+theorem step_isExec_stable {c : Cfg} {s s' : State} {a : Act} (hs : step c s a = some s') (w : Nat)
+    (h : (s.pc w).isExec = true) : (s'.pc w).isExec = true ∨ a = .execEnd w ∨ a = .respawn := by
+  cases a
+  case respawn => exact Or.inr (Or.inr rfl)
+  case park w' tag => left; rw [step_park_isExec hs]; exact h
+  case wake w' =>
+    left
+    simp only [step] at hs
+    split at hs
+    · rename_i hg; injection hs with hs; subst hs
+      obtain ⟨p, _, he⟩ := afterUnpark_pc { s with parked := s.parked - 1 } w'
+      rw [he]; exact isExec_keep (s := s) rfl h (by rw [hg.2.1]; rfl)
+    · cases hs
+  case makeRequest g x =>
+    left
+    simp only [step] at hs
+    have hc : (consumePending s g).pc = s.pc := by unfold consumePending; split <;> rfl
+    split at hs
+    · cases hs
+    · split at hs
+      · split at hs
+        · injection hs with hs; subst hs; rw [hc]; exact h
+        · cases hs
+      · rw [notifyOne_isExec hs]
+        have e : (setRequested (consumePending s g) g true).pc = s.pc := by cases g <;> exact hc
+        rw [e]; exact h
+  case bucketNotifyOne w' b x =>
+    left
+    simp only [step] at hs
+    split at hs
+    · rw [notifyOne_isExec hs]; exact h
+    · cases hs
+  case mutNotifyOne b x =>
+    left
+    simp only [step] at hs
+    split at hs
+    · rw [notifyOne_isExec hs]; exact h
+    · cases hs
+  case bucketNotifyAll w' b =>
+    left
+    simp only [step] at hs
+    split at hs
+    · injection hs with hs; subst hs; rw [notifyAll_isExec]; exact h
+    · cases hs
+  case wakeAll w' =>
+    left
+    simp only [step] at hs
+    split at hs
+    · injection hs with hs; subst hs; rw [notifyAll_isExec]; exact h
+    · cases hs
+  case execEnd w' =>
+    by_cases e : w = w'
+    · subst e; exact Or.inr (Or.inl rfl)
+    · left
+      simp only [step] at hs
+      split at hs
+      · split at hs
+        · injection hs with hs; subst hs
+          show ((setPc s w' _).pc w).isExec = true
+          simp only [setPc, e, if_false]; exact h
+        · cases hs
+      · cases hs
+  case batchMove w' b p =>
+    left
+    simp only [step] at hs
+    split at hs
+    · split at hs
+      · injection hs with hs; subst hs; exact h
+      · cases hs
+    · rename_i seen hpc
+      split at hs
+      · injection hs with hs; subst hs
+        exact isExec_keep (s := s) rfl h (by rw [hpc]; rfl)
+      · cases hs
+    · cases hs
+  case surrender w' =>
+    left
+    simp only [step] at hs
+    split at hs
+    · split at hs
+      · rename_i hg
+        have key : s'.pc = (setPc s w' .surrendered).pc := by
+          split at hs <;> (injection hs with hs; subst hs; rfl)
+        rw [key]; exact isExec_keep (s := s) rfl h (by rw [hg.2]; rfl)
+      · cases hs
+    · cases hs
+  case spurious w' =>
+    left
+    simp only [step] at hs
+    split at hs
+    · rename_i hg; injection hs with hs; subst hs
+      exact isExec_keep (s := s) rfl h (by rw [hg.2]; rfl)
+    · cases hs
+  case requestFlag =>
+    left
+    simp only [step] at hs
+    split at hs <;> (injection hs with hs; subst hs; exact h)
+  all_goals
+    left
+    simp only [step] at hs
+    repeat' (split at hs)
+    all_goals first
+      | (injection hs with hs; subst hs; exact h)
+      | (rename_i hpc _; injection hs with hs; subst hs
+         exact isExec_keep (s := s) rfl h (by rw [hpc]; rfl))
+      | cases hs
+
+/-- requests are only consumed inside `on_last_parked` -/
+theorem step_requests {c : Cfg} {s s' : State} {a : Act} (hs : step c s a = some s') :
+    (∃ w tag, a = .park w tag) ∨
+    ((s.reqGc = true → s'.reqGc = true) ∧ (s.reqShutdown = true → s'.reqShutdown = true) ∧
+      (s.reqFork = true → s'.reqFork = true)) := by
+  cases a
+  case park w tag => exact Or.inl ⟨w, tag, rfl⟩
+  case wake w =>
+    right
+    simp only [step] at hs
+    split at hs
+    · injection hs with hs; subst hs
+      obtain ⟨p, _, he⟩ := afterUnpark_pc { s with parked := s.parked - 1 } w
+      rw [he]; exact ⟨id, id, id⟩
+    · cases hs
+  case makeRequest g x =>
+    right
+    simp only [step] at hs
+    have hc := consumePending_same s g
+    split at hs
+    · cases hs
+    · split at hs
+      · split at hs
+        · injection hs with hs; subst hs; rw [hc]; exact ⟨id, id, id⟩
+        · cases hs
+      · rw [notifyOne_same hs, hc]
+        cases g
+        · exact ⟨fun _ => rfl, id, id⟩
+        · exact ⟨id, fun _ => rfl, id⟩
+        · exact ⟨id, id, fun _ => rfl⟩
+  case bucketNotifyOne w b x =>
+    right
+    simp only [step] at hs
+    split at hs
+    · rw [notifyOne_same hs]; exact ⟨id, id, id⟩
+    · cases hs
+  case mutNotifyOne b x =>
+    right
+    simp only [step] at hs
+    split at hs
+    · rw [notifyOne_same hs]; exact ⟨id, id, id⟩
+    · cases hs
+  all_goals
+    right
+    simp only [step] at hs
+    repeat' (split at hs)
+    all_goals first
+      | (injection hs with hs; subst hs; exact ⟨id, id, id⟩)
+      | cases hs
+
+/-- a goal is requested or a Gc goal is current, no exit goal is current, and no worker thread is gone -/
+def Pending (c : Cfg) (s : State) : Prop :=
+  (anyRequested s = true ∨ s.current = some .gc) ∧ NoExit s ∧ ∀ w, w < c.n → s.pc w ≠ .surrendered
+
+/-- the step is `park` by the last worker to park (the one that runs `on_last_parked`) -/
+def IsLastPark (c : Cfg) (s : State) (a : Option Act) : Prop := ∃ w tag, a = some (.park w tag) ∧ s.parked + 1 = c.n
+
+theorem anyRequested_mono {s s' : State} (h1 : s.reqGc = true → s'.reqGc = true)
+    (h2 : s.reqShutdown = true → s'.reqShutdown = true) (h3 : s.reqFork = true → s'.reqFork = true)
+    (h : anyRequested s = true) : anyRequested s' = true := by
+  simp only [anyRequested, Bool.or_eq_true] at h ⊢
+  rcases h with (h | h) | h
+  · exact Or.inl (Or.inl (h1 h))
+  · exact Or.inl (Or.inr (h2 h))
+  · exact Or.inr (h3 h)
+
+/-- `Pending` persists until the last worker parks -/
+theorem pending_step {c : Cfg} (hn : 0 < c.n) {s s' : State} {a : Act} (hr : Reachable c s) (hP : Pending c s)
+    (hs : step c s a = some s') (hnl : ¬ IsLastPark c s (some a)) : Pending c s' := by
+  obtain ⟨hreq, hnx, hns⟩ := hP
+  have hE := (reachable_invE hn hr).2
+  have hnoex : ∀ x, x < c.n → s.pc x ≠ .exited := by
+    intro x hx he
+    obtain ⟨g, hg1, hg2⟩ := hE.exited x hx he
+    have := hnx g hg1; rw [this] at hg2; cases hg2
+  by_cases hpk : ∃ w tag, a = .park w tag
+  · obtain ⟨w, tag, rfl⟩ := hpk
+    obtain ⟨hw, hpc, _, hcase⟩ := step_park_cases hs
+    rcases hcase with ⟨_, rfl⟩ | ⟨hl, _⟩
+    · refine ⟨hreq, hnx, fun x hx => ?_⟩
+      by_cases e : x = w
+      · subst e; rw [setPc_pc_self]; simp
+      · rw [setPc_pc_other _ _ e]; exact hns x hx
+    · exact absurd ⟨w, tag, rfl, hl⟩ hnl
+  have hsurrender : ∀ w, a ≠ .surrender w := by
+    intro w e; subst e
+    simp only [step] at hs
+    split at hs
+    · split at hs
+      · rename_i hg; exact hnoex w hg.1 hg.2
+      · cases hs
+    · cases hs
+  have hreq' : (s.reqGc = true → s'.reqGc = true) ∧ (s.reqShutdown = true → s'.reqShutdown = true) ∧
+      (s.reqFork = true → s'.reqFork = true) := by
+    rcases step_requests hs with h | h
+    · exact absurd h hpk
+    · exact h
+  have hcur : s'.current = s.current := by
+    rcases step_other_E c s s' a hs with h | ⟨w, rfl⟩ | ⟨w, rfl⟩ | rfl | ⟨hcur, _, _⟩
+    · exact absurd h hpk
+    · simp only [step] at hs
+      split at hs
+      · injection hs with hs; subst hs; rw [afterUnpark_current]
+      · cases hs
+    · exact absurd rfl (hsurrender w)
+    · simp only [step] at hs
+      split at hs
+      · split at hs
+        · injection hs with hs; subst hs; rfl
+        · cases hs
+      · cases hs
+    · exact hcur
+  refine ⟨?_, ?_, ?_⟩
+  · rcases hreq with h | h
+    · exact Or.inl (anyRequested_mono hreq'.1 hreq'.2.1 hreq'.2.2 h)
+    · exact Or.inr (by rw [hcur]; exact h)
+  · intro g hg; rw [hcur] at hg; exact hnx g hg
+  · intro x hx
+    rcases step_other_exsu c s s' a hs with h | ⟨w, rfl⟩ | ⟨w, rfl⟩ | rfl | h
+    · exact absurd h hpk
+    · simp only [step] at hs
+      split at hs
+      · injection hs with hs; subst hs
+        rw [afterUnpark_noExit w (s := { s with parked := s.parked - 1 }) hnx]
+        by_cases e : x = w
+        · subst e; rw [setPc_pc_self]; simp
+        · rw [setPc_pc_other _ _ e]; exact hns x hx
+      · cases hs
+    · exact absurd rfl (hsurrender w)
+    · simp only [step] at hs
+      split at hs
+      · split at hs
+        · injection hs with hs; subst hs; simp [hx]
+        · cases hs
+      · cases hs
+    · intro e; exact hns x hx ((h x).2.1 e)
+
 /-! ## a stuck run is impossible -/
 
 /-- a fair run in which nothing ever happens but quiet steps although a goal is requested or current -/
@@ -827,5 +1137,110 @@ theorem Stuck.false (S : Stuck c tr act) (hn : 0 < c.n) (hmut : c.mutAddOpen = f
   · exact h hb.2
 
 end stuck
+
+/-! ## every worker eventually parks: the last parker runs `on_last_parked` -/
+
+theorem FairRun.step_at {c : Cfg} {tr : Nat → State} {act : Nat → Option Act} (R : FairRun c tr act) {k : Nat} {a : Act}
+    (ha : act k = some a) : step c (tr k) a = some (tr (k+1)) := by
+  have := R.next k; rw [ha] at this; exact this
+
+theorem FairRun.stutter_at {c : Cfg} {tr : Nat → State} {act : Nat → Option Act} (R : FairRun c tr act) {k : Nat}
+    (ha : act k = none) : tr (k+1) = tr k := by
+  have := R.next k; rw [ha] at this; exact this
+
+/-- **progress lemma**: in a fair run with finitely many packets and finitely many environment actions, in
+which no assertion fires, from a state where a goal is requested (or a Gc goal is current) the run reaches a
+`park` step of the *last* parker — the worker that runs `on_last_parked` — and `Pending` holds up to there. -/
+theorem last_park_eventually {c : Cfg} {tr : Nat → State} {act : Nat → Option Act}
+    (hn : 0 < c.n) (hmut : c.mutAddOpen = false) (hu : c.unconIdx < c.L)
+    (R : FairRun c tr act) (hN : FiniteSpawn tr) (hE : FiniteEnv act) (hA : NoAssert c tr) (hP : Pending c (tr 0)) :
+    ∃ j, IsLastPark c (tr j) (act j) ∧ ∀ i, i ≤ j → Pending c (tr i) := by
+  apply Classical.byContradiction
+  intro hno
+  -- `Pending` holds forever and the last parker never parks
+  have hall : ∀ j, ∀ i, i ≤ j → Pending c (tr i) := by
+    intro j
+    induction j with
+    | zero => intro i hi; have : i = 0 := by omega
+              subst this; exact hP
+    | succ j ih =>
+      intro i hi
+      by_cases e : i ≤ j
+      · exact ih i e
+      · have : i = j + 1 := by omega
+        subst this
+        have hnl : ¬ IsLastPark c (tr j) (act j) := fun h => hno ⟨j, h, ih⟩
+        cases ha : act j with
+        | none => rw [R.stutter_at ha]; exact ih j (Nat.le_refl _)
+        | some a => exact pending_step hn (R.reach j) (ih j (Nat.le_refl _)) (R.step_at ha) (by rw [← ha]; exact hnl)
+  have hpend : ∀ j, Pending c (tr j) := fun j => hall j j (Nat.le_refl _)
+  have hnl : ∀ j, ¬ IsLastPark c (tr j) (act j) := fun j h => hno ⟨j, h, hall j⟩
+  -- the counters `started`, `ended` are eventually constant
+  obtain ⟨N, hN⟩ := hN
+  have hmono : ∀ j, (tr j).started ≤ (tr (j+1)).started ∧ (tr j).ended ≤ (tr (j+1)).ended := by
+    intro j
+    cases ha : act j with
+    | none => rw [R.stutter_at ha]; exact ⟨Nat.le_refl _, Nat.le_refl _⟩
+    | some a => exact step_counters_mono (R.step_at ha)
+  obtain ⟨K1, hK1⟩ := mono_bounded_const (fun j => (tr j).started + (tr j).ended) (2 * N)
+    (fun j => by have := hmono j; show _ + _ ≤ _ + _; omega)
+    (fun j => by
+      have k := reachable_invK hu (R.reach j)
+      have := k.added_eq; have := k.started_eq; have := hN j
+      show _ + _ ≤ _; omega)
+  have hconst : ∀ j, K1 ≤ j → (tr (j+1)).started = (tr j).started ∧ (tr (j+1)).ended = (tr j).ended := by
+    intro j hj
+    have h1 := hK1 j hj
+    have h2 := hK1 (j+1) (by omega)
+    have := hmono j
+    omega
+  obtain ⟨K2, hK2⟩ := hE
+  -- nobody runs a packet after `max K1 K2`
+  have hnoexec : ∀ j, max K1 K2 ≤ j → ∀ w, w < c.n → ((tr j).pc w).isExec = false := by
+    intro j hj w hw
+    cases hx : ((tr j).pc w).isExec with
+    | false => rfl
+    | true =>
+      exfalso
+      obtain ⟨m, hm, _, a, ha, hmem⟩ := wf1 R (.finish w) (fun m => ((tr m).pc w).isExec = true) j hx
+        (by
+          intro m hm hPm hnt
+          cases ha : act m with
+          | none => rw [R.stutter_at ha]; exact hPm
+          | some a =>
+            rcases step_isExec_stable (R.step_at ha) w hPm with h | rfl | rfl
+            · exact h
+            · exact absurd ⟨_, ha, rfl⟩ hnt
+            · have := hK2 m _ (by omega) ha; cases this)
+        (by
+          intro m _ hPm
+          refine ⟨.execEnd w, rfl, ?_⟩
+          cases hp : (tr m).pc w with
+          | exec p => simp [step, hp, hw]
+          | _ => rw [hp] at hPm; cases hPm)
+      simp only [FairAct.mem] at hmem; subst hmem
+      have := step_execEnd_ended (R.step_at ha)
+      have := (hconst m (by omega)).2
+      omega
+  -- the suffix from `K = max K1 K2` is a stuck run
+  let K := max K1 K2
+  have S : Stuck c (fun j => tr (K + j)) (fun j => act (K + j)) := {
+    run := R.shift K
+    eff := by
+      intro j a ha
+      have hs : step c (tr (K + j)) a = some (tr (K + j + 1)) := R.step_at ha
+      have hq := quiet_cases hs (hK2 (K + j) a (by omega) ha) (hconst (K + j) (by omega)).1 (hconst (K + j) (by omega)).2
+        (hnoexec (K + j) (by omega))
+        (by intro ⟨w, tag, e, hl⟩; exact hnl (K + j) ⟨w, tag, by rw [ha, e], hl⟩)
+      exact quiet_effect hs hq (reachable_invE hn (R.reach (K + j))).2 (hpend (K + j)).2.1
+    noexec := fun j => hnoexec (K + j) (by omega)
+    noexit := fun j => (hpend (K + j)).2.1
+    nosurr := fun j => (hpend (K + j)).2.2
+    noassert := fun j => hA (K + j)
+    pending := fun j => by
+      rcases (hpend (K + j)).1 with h | h
+      · exact Or.inl h
+      · exact Or.inr (by rw [h]; simp) }
+  exact S.false hn hmut
 
 end Mmtk.Sched
